@@ -17,7 +17,7 @@ import vlib
 from harness import text as T
 
 PROJECT = "text"
-PROPS = ["Octave.Props.C04", "Octave.Props.C04numbers", "Octave.Props.C01flat", "Octave.Props.C01master", "Octave.Props.C01maps", "Octave.Props.C01nested", "Octave.Props.Facts"]
+PROPS = ["Octave.Props.C04", "Octave.Props.C04numbers", "Octave.Props.C01flat", "Octave.Props.C01master", "Octave.Props.C01maps", "Octave.Props.C01nested", "Octave.Props.C04metanum", "Octave.Props.Facts"]
 ANCHORS = [("octave_mcp/core/emitter.py", "needs_quotes"), ("octave_mcp/core/emitter.py", "emit_value"),
            ("octave_mcp/core/emitter.py", "emit_assignment"), ("octave_mcp/core/emitter.py", "_force_quote_inline_map_value"),
            ("octave_mcp/core/emitter.py", "_emit_multiline_list"), ("octave_mcp/core/emitter.py", "emit_meta"),
@@ -217,6 +217,23 @@ def gen_cases(ctx):
         for pos, key in POSITIONS:
             cases.append(({"s": w}, pos, key))
     ctx.count("expression_shaped_strings", len(exprs))
+    # strings shaped like the lexemes of other token classes (versions per the semver grammar, dates, times, paths, URLs, variables,
+    # section references, annotations, comments, fences, envelopes, operators inside words): the quoting decision must agree with the lexer
+    looks = set()
+    for core in ("1.2.3", "0.0.1", "10.20.30", "1.2", "1.2.3.4", "v1.2.3"):
+        for pre in ("", "-rc.1", "-alpha", "-0.3.7", "-x-y-z.--", "-"):
+            for build in ("", "+build", "+build.5", "+build-20", "+exp-sha.5114f85", "+21AF26D3----117B344092BD", "+a.b-c", "+"):
+                looks.add(core + pre + build)
+    looks |= {"2024-01-15", "12:30:00", "2024-01-15T10:00:00Z", "2024-01-15T10:00:00+02:00", "src/a.py", "./docs", "../up", "//server/share", "//cdn.example.com/lib.js",
+              "/etc/hosts", "a/b/c", "a/", "/", "http://x.y/z?q=1#f", "https://x.y", "a@b.c", "$VAR", "$a:b", "$", "$1", "§1", "§2b", "§NAME", "§", "#tag", "#1", "a<b>", "a<b,c>",
+              "NEVER<A,B>", "a<>", "a<b", "A{b}", "A{}", "x::y", "k:v", "k:", ":v", "1e5x", "0x1F", "1_000", "+1", "-a", "a-", "a--b", "a.b.c", "a..b", ".a", "a.", "1.", "1.2.",
+              "1.2.3-", "3rd", "007", "1/2", "50%", "a%b", "A&B", "a|b", "a~b", "a->b", "a<->b", "a vs b", "avsb", "a+b", "a + b", "===X===", "===END===", "===", "---", "```", "```py",
+              "//", "// c", "a//b", "a // b", "a,b", "a, b", "[a]", "[]", "[a,b]", "{a}", "(a)", "a(b)", "a[b]", "a [b]", '"', '""', '"a"', "'a'", "\\", "a\\nb", "a b", " a", "a ",
+              "OCTAVE::1.0", "META", "END", "a∧b∧c", "§1::X", "X→§SELF", "true false", "null null", "1 2", "1.2.3 x", "x 1.2.3"}
+    for w in sorted(looks):
+        for pos, key in POSITIONS:
+            cases.append(({"s": w}, pos, key))
+    ctx.count("lexeme_lookalikes", len(looks))
     ctx.count("ints", len(ints)); ctx.count("floats", len(fl))
     return cases
 
